@@ -2,6 +2,12 @@
 //! usage: vharness <ID> <quick|thorough> [--seed N] [--replay FILE]
 mod attrib;
 mod c01;
+mod c02;
+mod c03;
+mod c05;
+mod c08;
+mod c15;
+mod c16;
 mod cfg;
 mod e2e;
 mod gen;
@@ -52,6 +58,12 @@ fn main() {
         let case = &v["case"];
         match prop.as_str() {
             "C01" => c01::replay(&ctx, case),
+            "C02" => c02::replay(&ctx, case),
+            "C03" => c03::replay(&ctx, case),
+            "C05" => c05::replay(&ctx, case),
+            "C08" => c08::replay(&ctx, case),
+            "C15" => c15::replay(&ctx, case),
+            "C16" => c16::replay(&ctx, case),
             _ => {
                 eprintln!("no replay for {prop}");
                 std::process::exit(2);
@@ -76,6 +88,12 @@ fn main() {
     }
     let code = match prop.as_str() {
         "C01" => c01::run(&ctx),
+        "C02" => c02::run(&ctx),
+        "C03" => c03::run(&ctx),
+        "C05" => c05::run(&ctx),
+        "C08" => c08::run(&ctx),
+        "C15" => c15::run(&ctx),
+        "C16" => c16::run(&ctx),
         _ => {
             eprintln!("unknown property {prop}");
             2
